@@ -127,6 +127,10 @@ func verifyEnforcedCanonicalJSON(input []byte) error {
 			valid = false
 			return false
 		}
+		if value.Type == gjson.Number && strings.ContainsAny(value.Raw, ".eE") {
+			valid = false
+			return false
+		}
 		if value.Num != 0 && strings.ContainsRune(value.Raw, '.') {
 			valid = false
 			return false
